@@ -387,6 +387,25 @@ example : (callPlan "vec!".toList true .paren .expression false false true (some
 example : (callPlan "my::vec!".toList false .brace .item false false true (some {})).delim = some .brace := by decide
 example : macroStyle "foo! /* ( */ [a(b)]".toList = .bracket := by decide
 
+/-- In item position (module level, `impl` / `trait` bodies, `extern` blocks) a call written with
+`()` or `[]` keeps its `;`: `handle_vec_semi` and the block-like fallback do not add it, the caller
+does (for `extern` blocks only since the repair). -/
+theorem item_call_keeps_semicolon (original : Delim) (rw : List Char) (h : original ≠ .brace) :
+    (finishItemCall original rw).getLast? = some ';' := by
+  unfold finishItemCall
+  cases original with
+  | brace => exact absurd rfl h
+  | paren =>
+    simp only
+    split
+    · rename_i hl; simpa using hl
+    · simp
+  | bracket =>
+    simp only
+    split
+    · rename_i hl; simpa using hl
+    · simp
+
 /-- **Trailing separators of macro calls are kept.**  Whenever a list is written, the tactic is
 `Always` when the call ended with a comma and `Never` when it did not; the one exception is `vec!`
 outside another macro call under block indent, which is written like an array literal (`Vertical`). -/
